@@ -283,7 +283,10 @@ Definition plain_step (bk : backing) (kc : core) (o : op) : option (core * out) 
               | inl b => match assoc s (b_mds b) with
                          | None => (kc, OErr EOther)              (* "metadata does not exist" *)
                          | Some v => if (off <? 0)%Z then (kc, OErr EOther)   (* os: negative offset *)
-                                     else (upd_blob k (set_mds (set_key s (write_at v (Z.to_N off) bytes) (b_mds b))) kc, OOk)
+                                     else match bytes with
+                                          | [] => (kc, OOk)               (* pwrite of zero bytes: no effect, even past EOF *)
+                                          | _ => (upd_blob k (set_mds (set_key s (write_at v (Z.to_N off) bytes) (b_mds b))) kc, OOk)
+                                          end
                          end
               end)
       end
